@@ -120,7 +120,13 @@ func (l *Lexer) readLeadingComments() {
 				l.ReadChar()
 			}
 			// trailing white space (and the carriage return of a CRLF line end) is not comment text
-			l.leadingComments = append(l.leadingComments, strings.TrimRight(comment.String(), " \t\r"))
+			text := strings.TrimRight(comment.String(), " \t\r")
+			if text == "" {
+				// an entry without text means "line break": a comment without text is
+				// kept as a single space so that it is not mistaken for a blank line
+				text = " "
+			}
+			l.leadingComments = append(l.leadingComments, text)
 		}
 
 		if !isWhitespace(l.CurrentChar) {
